@@ -140,9 +140,31 @@ def make_job(transport, only=None):
                 probe_timeout=3000, _transport=transport, _cells=cells)
 
 
+def unversioned_job(only=None):
+    """The same API under a proto package without a version segment: the version slot of the region tags is empty."""
+    from google.protobuf import text_format
+    from google.protobuf.compiler import plugin_pb2
+    req, cells, dep = build('grpc')
+    txt = text_format.MessageToString(req).replace('acme.smp.v1', 'acme.smp').replace('acme/smp/v1/', 'acme/smp/')
+    req2 = plugin_pb2.CodeGeneratorRequest()
+    text_format.Parse(txt, req2)
+    desc.gate(req2)
+    cells = [dict(c, id='unversioned/' + c['id'], req=c['req'].replace('.acme.smp.v1.', '.acme.smp.'), resp=c['resp'].replace('.acme.smp.v1.', '.acme.smp.'))
+             for c in cells if c['kit'] in ('none', 'enum', 'dep-package')]
+    if only:
+        cells = [c for c in cells if c['id'] in only]
+    return dict(id='samples/grpc/unversioned', req=req2.SerializeToString(), probe='mc.probes.samples', pb2_files=[dep.SerializeToString()],
+                probe_args=dict(package='acme.smp', proto_package='acme.smp', cells=cells, transport='grpc', shortname='smpapi', version='',
+                                service='Smp'),
+                probe_timeout=3000, _transport='grpc', _cells=cells)
+
+
 def run(ctx, only=None):
     jobs = [make_job(t, (only or {}).get('cells')) for t in ('grpc', 'rest', 'grpc+rest')
             if not only or only.get('transport') in (None, t)]
+    if not only or any(str(c).startswith('unversioned/') for c in (only.get('cells') or [])):
+        jobs.append(unversioned_job((only or {}).get('cells')))
+    jobs = [j for j in jobs if j['_cells']]
     ctx.log(f'{sum(len(j["_cells"]) for j in jobs)} RPC cells over {len(jobs)} transports')
     ran = 0
     for job, res in zip(jobs, engine.run_jobs(jobs)):
